@@ -115,6 +115,16 @@ def gen_cases(ctx):
             case["regime2"] = int(rng.choice([0, 7, 4, 6]))   # regime switch half-way (through get_regime)
         case["kind"] = "history"
         yield case
+    for i in range(ctx.share(ctx.scale(36, 1200)) // (3 if ctx.mode == "bounds" else 1)):
+        # a two-phase aggregate driven through pydrex.update_all, one segment of the history being rejected
+        rng = ctx.rng(3, i)
+        case = drive.random_history_case(rng, regime=int(rng.choice([4, 6])), regime_via="static", solver="default", reversed=False)
+        case.update(kind="bulk_rejection", n=int(rng.choice([3, 10, 40])), N=int(rng.choice([3, 5])), phi=float(rng.choice([0.7, 0.4])),
+                    reject=str(rng.choice(["unsupported_regime", "omitted_phase", "raising_callable", "none"], p=[0.35, 0.3, 0.25, 0.1])),
+                    bad_regime=int(rng.choice([2, 3, 5, 9])), order=int(rng.integers(2)))
+        case["reject_at"] = int(rng.integers(case["N"]))
+        case["L"]["mode"] = str(rng.choice(["const", "timedep"]))
+        yield case
     for i in range(ctx.share(ctx.scale(12, 200))):
         rng = ctx.rng(2, i)
         yield {"kind": "constructor", "seed": int(rng.integers(1 << 31)), "n": int(rng.choice([2, 3, 50, 500, 3500]))}
@@ -129,6 +139,8 @@ def check_case(ctx, case):
     mon = state["mon"]
     mon.case = case
     H = drive.History(pydrex, case)
+    if case["kind"] == "bulk_rejection":
+        return _bulk_rejection(ctx, pydrex, case, state, H)
     if int(case["seed"]) % 7 == 0 or state.get("first_case", True):
         # a coarse preview of the same history on a throwaway mineral with loose user-chosen solver options must not
         # influence the monitored run that follows with its own (default) options
@@ -204,6 +216,79 @@ def _snapshot_oracle(ctx, case, state, m, N, eps, regime, initial=False):
         obs = dict(faults).get(sub)
         ctx.check("snapshot_valid" if not bad else f"snapshot_valid/{sub}", not bad, case, key=key,
                   explained=explained, observed=obs, bound=bound, N=N, strain=eps, regime=regime)
+
+
+def _bulk_rejection(ctx, pydrex, case, state, H):
+    """History of a two-phase aggregate through pydrex.update_all in which one call is rejected (unsupported regime
+    returned by get_regime / this phase omitted from the assemblage / a raising velocity callable): whatever a call
+    does, every mineral's stored history only ever grows by whole snapshots at the end (append-only, by identity and
+    digest), an accepted call appends exactly one snapshot to every mineral, and every stored snapshot is valid."""
+    import warnings
+
+    core = pydrex.core
+    m1 = H.mineral()
+    other = [p for p in (core.MineralPhase.olivine, core.MineralPhase.enstatite) if p != H.phase][0]
+    fab2 = core.MineralFabric.enstatite_AB if other == core.MineralPhase.enstatite else core.MineralFabric.olivine_A
+    rng = np.random.default_rng([int(case["seed"]), 23])
+    n2 = int(rng.choice([2, 7, H.n]))
+    m2 = pydrex.Mineral(phase=other, fabric=fab2, regime=core.DeformationRegime(H.regime), n_grains=n2,
+                        fractions_init=gen.volumes(rng, n2, "dirichlet")[1], orientations_init=gen.texture(rng, n2, "random")[1])
+    minerals = [m1, m2] if case["order"] == 0 else [m2, m1]
+    ctx.cls(f"bulk_rejection={case['reject']}")
+    state["same_rate_all_grains"], state["rate_calls"] = False, 0
+
+    def digest(m):
+        return ([id(a) for a in m.orientations], [drive.sha(a) for a in m.orientations],
+                [id(a) for a in m.fractions], [drive.sha(a) for a in m.fractions])
+
+    F = H.F0.copy()
+    accepted = 0
+    with warnings.catch_warnings():
+        warnings.simplefilter("ignore")
+        for k, (a, b) in enumerate(zip(H.ts[:-1], H.ts[1:])):
+            before = [digest(m) for m in minerals]
+            params, Lfun, get_regime = H.params, H.Lfun, None
+            rejected = k == case["reject_at"] and case["reject"] != "none"
+            if rejected and case["reject"] == "unsupported_regime":
+                get_regime = (lambda t, x: case["bad_regime"])
+            elif rejected and case["reject"] == "omitted_phase":
+                params = dict(H.params)
+                params["phase_assemblage"], params["phase_fractions"] = (minerals[0].phase,), (1.0,)
+            elif rejected:
+                calls = {"n": 0}
+
+                def Lfun(t, x, _f=H.Lfun):
+                    calls["n"] += 1
+                    if calls["n"] > 25:
+                        raise PostBroken("injected failure in the velocity gradient callable")
+                    return _f(t, x)
+            try:
+                F = pydrex.update_all(minerals, params, F, Lfun, (a, b, H.posfun), get_regime=get_regime)
+                ok_call = True
+            except Exception as e:
+                ok_call = False
+                if not rejected:
+                    ctx.check("update_does_not_raise", False, case, key=f"raises/{type(e).__name__}",
+                              exc=f"{type(e).__name__}: {str(e)[:200]}", regime=H.regime)
+                    break
+            for m in minerals:
+                m.regime = core.DeformationRegime(H.regime)   # get_regime leaves its last answer on the mineral
+            accepted += ok_call
+            ctx.count("bulk_calls_accepted" if ok_call else "bulk_calls_rejected")
+            for j, (m, bf) in enumerate(zip(minerals, before)):
+                af = digest(m)
+                nb = len(bf[0])
+                grown = len(af[0]) - nb
+                ok = len(af[2]) == len(af[0]) and all(x[:nb] == y for x, y in zip(af, bf))
+                ok = ok and (grown == 1 if ok_call else grown in (0, 1))
+                ctx.check("bulk_history_append_only", ok, case, call=k, accepted=ok_call, mineral=j, n_before=nb,
+                          n_after=len(af[0]), nf_after=len(af[2]), reject=case["reject"])
+    ctx.case(case, nontrivial=accepted > 0)
+    for m in minerals:
+        for i in range(len(m.orientations)):
+            faults = refmodels.texture_faults(m.orientations[i], m.fractions[i], m.n_grains, 5e-3 + 1e-3 * (H.N + 2 * H.strain_upto(H.N - 1)))
+            ctx.check("snapshot_valid" if not faults else f"snapshot_valid/{faults[0][0]}", not faults, case, key=faults[0][0] if faults else None,
+                      snapshot=i, observed=[list(map(str, x)) for x in faults][:3])
 
 
 def _constructor(ctx, pydrex, case):
